@@ -75,6 +75,10 @@ HAND = [
     ("split-wild", RS(r(L("i/new")), r(L("i/nex")), r(L("i/"), W("id")), r(L("i/"), W("id"), L("/s"))), False),
     # a path-filtered wildcard, literal text, then a wildcard in the ':name' flavour (one rule mixing syntax flavours)
     ("path-wild", RS(r(W("p", "path"), L("-"), W("v")), r(L("a-b")), r(W("p", "path"), L("-"), W("v"), L("/z"))), False),
+    # filters whose regex looks at its left context (start anchor, word boundary, look-behind): a filter is applied to the
+    # text at the cursor, what precedes the wildcard in the path is not its business (since seed C01-i)
+    ("re-context", RS(r(L("i/"), W("c", "re", "^[ab]+")), r(L("n"), W("k", "re", r"\B[0-9]")), r(L("t-"), W("t", "re", "(?<!-)[ab]"), L("/x")),
+                      r(L("w"), W("b", "re", r"\b[0-9]"), L("z"))), True),
     ("float", RS(r(L("v/"), W("f", "float")), r(L("v/"), W("f", "float"), L("/x")), r(L("v/1")), r(L("v/1.")),), True),
 ]
 
